@@ -87,6 +87,30 @@ def ctor_task(fixed):
             nodeg = isnode[x] if x != 'zz' else False
             bad.append(other)
             bad.append(b_and(ok_g, b_xor(rt, b_not(nodeg))))          # raises RuntimeError <=> not a state
+    # replace the labelling function by one with symbolic keys that also names a non-state; the accessor contract must survive
+    L2 = MDict()
+    rk = [getv(fixed, 's0_%d' % i) for i in range(U)]             # (re-uses the S0 bits as "key i is present in the new labelling")
+    for i in range(U):
+        st2 = MSet()
+        st2.put('r', True)
+        see.Ctx(ctx.vm, ctx.fr, rk[i]).setitem(L2, i, st2)
+    zz = MSet()
+    zz.put('r', True)
+    ctx.setitem(L2, 'zz', zz)
+    c3 = see.Ctx(vm, see.Frame('<repl>'), ok_g)
+    c3.call(c3.getattr1(K, 'replace_labelling_function'), [L2], {})
+    bad.append(b_or(*[g for g, e, _ in c3.fr.exc]))
+    for x in list(range(U)) + ['zz']:
+        c4 = see.Ctx(vm, see.Frame('<acc2>'), c3.g)
+        r = c4.call(c4.getattr1(K, 'labels'), [x], {})
+        rt = b_or(*[g for g, e, _ in c4.fr.exc if isinstance(e, RuntimeError)])
+        other = b_or(*[g for g, e, _ in c4.fr.exc if not isinstance(e, RuntimeError)])
+        nodeg = isnode[x] if x != 'zz' else False
+        bad.append(other)
+        bad.append(b_and(c3.g, b_xor(rt, b_not(nodeg))))
+        if x != 'zz':
+            has_r = fold_b(r, lambda q: (q.get('r') if isinstance(q, MSet) else False)) if r is not None else False
+            bad.append(b_and(c4.g, nodeg, b_xor(has_r, rk[x])))          # labels(x) is the new label set, or empty when the key was missing
     bad.append(unwind_guard(vm))
     t1 = time.time()
     encoded = sorted(vm.encoded)
@@ -252,7 +276,7 @@ def same(C, keep, what):
     if set(C.transitions()) != {(a, b) for (a, b) in R if a in keep and b in keep}: bad.append('%%s: transitions %%s' %% (what, C.transitions()))
     for x in keep:
         if x in set(C.states()) and C.labels(x) != L.get(x, set()): bad.append('%%s: labels(%%s)=%%s expected %%s' %% (what, x, C.labels(x), L.get(x, set())))
-        if x in set(C.states()) and C.labels(x) is K.labels(x): bad.append('%%s: label set of %%s shared' %% (what, x))
+        if C is not K and x in set(C.states()) and C.labels(x) is K.labels(x): bad.append('%%s: label set of %%s shared' %% (what, x))
     if set(C.S0) != (set(S0) & keep): bad.append('%%s: S0 %%s' %% (what, C.S0))
 if built:
     if kind == 'ctor':
@@ -262,6 +286,14 @@ if built:
                 expect_rt(lambda: K.labels(x), 'labels(%%r)' %% x); expect_rt(lambda: K.next(x), 'next(%%r)' %% x)
         for x in nodes:
             if x in L and K.labels(x) is L[x]: bad.append('label set of %%s is the caller\\'s object' %% x)
+        L2 = {i: {'r'} for i in range(U) if val('s0_%%d' %% i)}
+        L2['zz'] = {'r'}
+        K.replace_labelling_function(L2)
+        for x in list(range(U)) + ['zz']:
+            if x not in nodes:
+                expect_rt(lambda: K.labels(x), 'labels(%%r) after replace_labelling_function' %% x)
+            elif K.labels(x) != ({'r'} if val('s0_%%d' %% x) else set()):
+                bad.append('labels(%%r) after replace_labelling_function = %%s' %% (x, K.labels(x)))
     elif kind == 'clone':
         same(K.clone(), nodes, 'clone')
     else:
